@@ -62,6 +62,15 @@ CLAIMS['C11'] = dict(level='other', technique='flow-sensitive effect analysis on
     note='Path-insensitive: feasibility of a reported pair is decided by triage, not by the checker; reviewed pairs are keyed exactly (function, mutation, error source).',
     ref='§4 C11')
 
+CLAIMS['C13'] = dict(level='other', technique='MIR provenance rules on deep_copy / create_copied_sub_element* / duplicate: source of every stored child (recursive deep_copy result only), by-value copies of value types checked against the ADT table, lock mode per owner (write only on fresh objects), field coverage against the ADT, provenance of membership handles',
+    text='Decides that a copy shares no node with its source, that the source is only read-locked, that every field of ElementRaw is copied or deliberately reset, and that duplicate() builds the copy only through the new model (files, content, standalone flag, membership handles). Registration of the copy in both indexes is decided by C04/C05. Does not decide textual equality of serialisations or which parts a cross-version copy omits.',
+    note='The type-level part (no public constructor of Element from ElementRaw, no access to the inner Arc) rests on Rust privacy of pub(crate)/private fields, visible in the ADT table (field visibility is checked).',
+    ref='§4 C13')
+CLAIMS['C14'] = dict(level='other', technique='MIR write-set closure of sort over the call graph, control-dependence of clear() on !is_ordered() and the content mode, must-pass-through of the refill loop with provenance of its iterable, comparator shape',
+    text='Decides ONLY that sorting permutes the content list: its transitive write-set is {ElementRaw.content}, it never reorders a type marked ordered, it re-inserts exactly the handles it collected (every Element item is collected, the refill loop is on every path after the clear, nothing can exit in between), and the comparator orders by specification position first. Idempotence and independence of the initial order are NOT decided (they need a total order on run-time values; Ord for Element is not one - documented finding).',
+    note='Narrow necessary conditions; stated as such.',
+    ref='§4 C14')
+
 NA = {
     'C16': 'serialisability quantifies over interleavings and compares with sequential runs; the only static route (two-phase/reduction analysis) rejects essentially every public operation of the present design, so it cannot separate code that holds the property from code that does not',
     'C20': 'statement about numeric results (exactness, correct rounding, overflow per width) computed by std parsers for all texts; no static argument in reach bounds these run-time quantities',
